@@ -93,7 +93,7 @@ pub fn tail(ctx: &Ctx) {
 
 pub fn cuts(ctx: &Ctx) {
     let base = if ctx.tier_thorough { 3 } else { 2 };
-    run(ctx, Knobs { cuts: true, base_packets: base, non_data_packets: true, ..Knobs::NONE });
+    run(ctx, Knobs { cuts: true, base_packets: base, non_data_packets: true, max_ignored: true, ..Knobs::NONE });
 }
 /// XML lexical forms and omitted default attributes
 pub fn xml(ctx: &Ctx) {
